@@ -2,6 +2,7 @@ package props
 
 import (
 	"fmt"
+	"go/constant"
 	"go/token"
 	"go/types"
 	"sort"
@@ -180,6 +181,8 @@ func (c *Ctx) ringSpaceAccounting() {
 	if c.R.Property != "C14" && c.R.Property != "C17" {
 		c.R.Count("producer waits (wait only for what fits the ring)", cnt["fits"])
 		c.R.Floor("producer waits (wait only for what fits the ring)", cnt["fits"], 1)
+		c.R.Count("consumer waits for a count (wait only for what can arrive)", cnt["arrive"])
+		c.R.Floor("consumer waits for a count (wait only for what can arrive)", cnt["arrive"], 1)
 	}
 	c.R.Count("consumer calls reporting a byte count (advance == count)", cnt["advance"])
 	c.R.Floor("consumer calls reporting a byte count (advance == count)", cnt["advance"], 2)
@@ -588,6 +591,32 @@ func (sp *spaceRules) probe(p *bounds.Probe) {
 			}
 			sp.record(fmt.Sprintf("%s:wait(%s)#%d:waits-only-for-what-fits", fn.Name(), cond, k), "fits", c.P.InstrPos(p.Instr), "at the Wait the count asked for is at most the size of the ring", fn.Name()+" can go to sleep waiting for more room than the ring has: a message larger than the ring (a long will on a broker with a small BufferSize, an in-process Publish of a large message) parks the delivering goroutine for ever, with the connection's write mutex held", fits, "in context "+p.Ctx+": count <= size is not provable from the facts at the Wait")
 		}
+		if cond == "ccond" && c.R.Property != "C14" && c.R.Property != "C17" {
+			// (9) the consumer sleeps for n bytes only if they can arrive: the ring's own pump (ReadFrom) takes room a
+			// constant block at a time and sleeps until a whole block is free, so n bytes are only ever there when a block
+			// still fits beside them: n + block <= size at the Wait. A wait that is provably for "any data" (no data at
+			// all at the Wait) is not concerned.
+			anyData := false
+			for _, own := range sp.reads(p, "cseq") {
+				for _, pr := range sp.reads(p, "pseq") {
+					if p.Proves(bounds.LE(pr, own)) {
+						anyData = true
+					}
+				}
+			}
+			if !anyData && len(counts) > 0 {
+				block := sp.pumpBlock()
+				fits := false
+				if size9 := sizeInFrames(p); size9 != nil && block > 0 {
+					for _, n := range counts {
+						if p.Proves(bounds.LE(n.AddK(block), *size9)) {
+							fits = true
+						}
+					}
+				}
+				sp.record(fmt.Sprintf("%s:wait(%s)#%d:waits-only-for-what-can-arrive", fn.Name(), cond, k), "arrive", c.P.InstrPos(p.Instr), fmt.Sprintf("at the Wait the count asked for plus the pump's block (%d) is at most the size of the ring", block), fn.Name()+fmt.Sprintf(" can go to sleep for more bytes than can ever be in the ring beside the free block of %d bytes the pump waits for: a packet a little smaller than the ring leaves pump and processor waiting for each other - nobody reads the socket any more, so keep-alive expiry and the peer's close go unnoticed and the connection is never torn down", block), fits, "in context "+p.Ctx+": count + block <= size is not provable from the facts at the Wait")
+			}
+		}
 		sp.record(fmt.Sprintf("%s:wait(%s)#%d:waits-only-when-it-must", fn.Name(), cond, k), "mustwait", c.P.InstrPos(p.Instr), "at the Wait the other side's cursor, as read under the lock, leaves too little room / data", fn.Name()+" can go to sleep although the other side's cursor already leaves exactly enough room (or data): nobody wakes it again when the other side has nothing more to do - the connection hangs at that boundary", good, "in context "+p.Ctx+": 'not enough' is not provable from the facts at the Wait")
 		return
 	}
@@ -887,6 +916,28 @@ func copyOnlyDst(x *ssa.Slice) *ssa.Call {
 		only = call
 	}
 	return only
+}
+
+// pumpBlock: the largest constant count a method of the ring itself asks the space reservation for (ReadFrom's read
+// block); 0 when there is none.
+func (sp *spaceRules) pumpBlock() int64 {
+	var best int64
+	for _, fn := range sp.c.P.Funcs {
+		if recvNamed(fn) != "buffer" || fn.Pkg == nil || fn.Pkg.Pkg.Path() != pkgService {
+			continue
+		}
+		for _, call := range ir.Calls(fn) {
+			if call.Common().StaticCallee() != sp.reserve || len(call.Common().Args) < 2 {
+				continue
+			}
+			if k, ok := call.Common().Args[1].(*ssa.Const); ok && k.Value != nil {
+				if v, exact := constant.Int64Val(constant.ToInt(k.Value)); exact && v > best {
+					best = v
+				}
+			}
+		}
+	}
+	return best
 }
 
 // sizeInFrames: the ring's size as the nearest frame of the probe has loaded it from the receiver.
